@@ -724,7 +724,9 @@ def judge(w, plan, kinds, speakers, sent, h, unpack_log, violations, probes) -> 
             sess = r['sess']
             if r['valid'] and plan['scripts'][i]['state'] == 'established':
                 # the decoder's own verdict on this very body (matched by peer, type and length in decoding order)
-                mine = [u for u in unpack_log if u['peer'] == k['peer_ip'] and u.get('sessno') == sess.index and u['type'] == r['type'] and u['len'] == r['len'] and u['t'] >= r['at']]
+                # (bodies of the same type and length are told apart by their rank among those sent on this session)
+                rank = sum(1 for x in sent[i] if x['sess'] is sess and x['type'] == r['type'] and x['len'] == r['len'] and x['at'] < r['at'])
+                mine = [u for u in unpack_log if u['peer'] == k['peer_ip'] and u.get('sessno') == sess.index and u['type'] == r['type'] and u['len'] == r['len'] and u.get('phase') != 'render'][rank:]
                 if mine and mine[0]['exc'] is not None:
                     violations.append(viol('C03/valid-message-refused', f'session {i}: a valid {r["item"]["gen"]} UPDATE of {r["len"]} bytes was refused: {mine[0]["exc"]}', gen=r['item']['gen']))
                     return
